@@ -36,6 +36,11 @@ PRELUDE = [
     "(define (mk-kept-v v) (set! keep (cons (lambda () v) keep)) v)",
     # a closure that READS no local variable and only ASSIGNS one of the enclosing call
     "(define (mk-resettable) (let ((n 0)) (list (lambda () (set! n (+ n 1)) n) (lambda () (set! n 0)) (lambda (v) (set! n v)))))",
+    # closures over a private binding that also READ a global which is assigned between their calls (from top level and from
+    # other closures): every read sees the current value
+    "(define step 1)",
+    "(define (mk-stepper) (let ((n 0)) (lambda () (set! n (+ n step)) n)))",
+    "(define (mk-step-setter) (let ((k 0)) (lambda (v) (set! k (+ k 1)) (set! step v) k)))",
     "(define g 0)",
     "(define (bump-g!) (set! g (+ g 1)) g)",
     "(define (shadow-g) (let ((g 100)) (set! g (+ g 1)) g))",
@@ -52,6 +57,9 @@ class Sim:
         self.vecs = {}         # variable -> python list object (identity = the vector)
         self.lists = {}        # variable -> python list of (vector object)
         self.resettables = {}  # name -> [n]
+        self.steppers = {}     # name -> [n]
+        self.stepv = 1
+        self.setter = None
         self.pokers = {}       # name -> vector object
         self.readers = {}
         self.g = 0
@@ -73,6 +81,8 @@ class Sim:
     def step(self):
         r = self.rng
         ops = ["counter-new", "pair-new", "vec-new", "bump", "counters-batch", "cells-batch", "kept-new", "kept-vec", "resettable-new"]
+        ops += ["stepper-new", "step-set"]
+        if self.steppers: ops += ["stepper-call"] * 3 + ["step-set"] * 2
         if self.resettables: ops += ["resettable-inc", "resettable-reset", "resettable-set"] * 2
         if self.counters: ops += ["counter-call"] * 3
         if len(self.counters) >= 2: ops += ["counter-assign"] * 2
@@ -87,6 +97,22 @@ class Sim:
         if op == "counter-new":
             n = self.fresh("c"); self.counters[n] = [0]
             self.emit("(define %s (%s))" % (n, r.choice(["mk-counter", "mk-counter-d", "mk-counter-d", "mk-counter-b"])), "N")
+        elif op == "stepper-new":
+            n = self.fresh("t"); self.steppers[n] = [0]
+            self.emit("(define %s (mk-stepper))" % n, "N")
+        elif op == "stepper-call":
+            n = r.choice(list(self.steppers)); self.steppers[n][0] += self.stepv
+            self.emit("(%s)" % n, "V i:%d" % self.steppers[n][0])
+        elif op == "step-set":
+            v = r.randrange(2, 9)
+            if self.setter is None or r.random() < 0.5:
+                self.stepv = v; self.emit("(set! step %d)" % v, "V <void>")
+            else:
+                self.setter[1] += 1; self.stepv = v
+                self.emit("(%s %d)" % (self.setter[0], v), "V i:%d" % self.setter[1])
+            if self.setter is None and r.random() < 0.5:
+                nm = self.fresh("u"); self.setter = [nm, 0]
+                self.emit("(define %s (mk-step-setter))" % nm, "N")
         elif op == "resettable-new":
             n = self.fresh("q"); self.resettables[n] = [0]
             self.emit("(define %s (mk-resettable))" % n, "N")
